@@ -342,6 +342,9 @@ class Tle:
             # lines containing only a COSPAR ID, which happens when an object is detected but the
             # JSpOc doesn't know what is the source yet.
             if line.startswith("1 "):
+                # A new first line supersedes an orphan one (whose second line is missing),
+                # otherwise the following valid entry would be lost with it
+                cache = [x for x in cache if not x.startswith("1 ")]
                 cache.append(line)
             elif line.startswith("2 "):
                 cache.append(line)
